@@ -8,7 +8,7 @@
     (they are drawn from the same counter; [wfb] does not say so).  Proofs: PassPlanProofs.v,
     on top of EngineLocal's [C13_bracket_and_order] and [C13_changed_node_is_queued_for_handler]. *)
 From incr Require Import Base Heap HeapSpec EngineDefs Engine EngineRun EngineWf Spec EngineLemmas EngineLocal
-     PassInv PassProofs PassPlanProofs.
+     EngineInv EngineInvProofs PassInv PassProofs PassPlanProofs PassPlanProofs2.
 
 (** [L]: the events between the brackets (no handler event among them: [passEv]); [H]: the handler
     events, without repetition. *)
@@ -47,3 +47,44 @@ Proof.
   split; [exact (proj1 ex_pre_hyps)|]. split; [exact (proj2 ex_pre_hyps)|].
   split; [exact (proj2 (proj2 ex_plan_hyps))|]. split; [exact ex_pass_ok|]. vm_compute; reflexivity.
 Qed.
+
+(** ** On top of the structural invariant [EngineInv.Inv] (C05): no [wfb] / [ObsInv] hypothesis *)
+
+(** for every clean history of the fragment from the empty graph ([static_op2]: no binds; passes
+    with writing plans or one failing node function allowed), the handler events of every
+    plan-free pass are exactly-once-iff-changed *)
+Theorem C13_history_bindfree : forall mh os1 os2 s',
+  (0 < mh)%nat -> forallb static_op2 (os1 ++ Stabilize [] :: os2) = true ->
+  run_clean (init mh) (os1 ++ Stabilize [] :: os2) = Some s' ->
+  exists s1 s2 L H, run_clean (init mh) os1 = Some s1 /\ step s1 (Stabilize []) = Ok (s2, None) /\
+    rev (log s2) = rev (log s1) ++ [EvPassStart] ++ L ++ [EvPassEnd XOk] ++ H /\
+    Forall passEv L /\ Forall EngineLocal.isHandlerEv H /\ NoDup H /\
+    (forall n, EvUpd n ∈ H <-> inGraph (nd s2 n) = true /\ changedAt (nd s2 n) = stabNum s1) /\
+    (forall o v, EvObsUpd o v ∈ H <->
+       exists n, obs s2 !! o = Some n /\ changedAt (nd s2 n) = stabNum s1 /\ v = valueOf s2 n).
+Proof. exact history_planfree_handlers. Qed.
+Print Assumptions C13_history_bindfree.
+
+(** a pass whose plan writes vars runs the handlers of the write-free pass; an observer sees the
+    value its node held when the computations ended ([sLp]), not the deferred write *)
+Theorem C13_static_writes : forall s p s',
+  wfb s = true -> ValInv s -> ObsInv s -> writes_only p = true -> plan_ok s p = true ->
+  stabilize p false s = Ok (s', None) ->
+  exists sLp at_ al L H,
+    passResult p false s = Ok (sLp, None, at_, al) /\
+    rev (log s') = rev (log s) ++ [EvPassStart] ++ L ++ [EvPassEnd XOk] ++ H /\
+    Forall passEv L /\ Forall EngineLocal.isHandlerEv H /\ NoDup H /\
+    (forall n, EvUpd n ∈ H <-> inGraph (nd s' n) = true /\ changedAt (nd s' n) = stabNum s) /\
+    (forall o v, EvObsUpd o v ∈ H <->
+       exists n, obs s' !! o = Some n /\ changedAt (nd s' n) = stabNum s /\ v = valueOf sLp n).
+Proof. exact pass_handlers_writes. Qed.
+Print Assumptions C13_static_writes.
+
+(** [ObsInv] is part of [Inv] *)
+Theorem C13_static_Inv_ObsInv : forall s, Inv s -> ObsInv s.
+Proof. exact Inv_ObsInv. Qed.
+Print Assumptions C13_static_Inv_ObsInv.
+
+Example C13_history_ex :
+  forallb static_op2 ex_history2 = true /\ exists s', run_clean (init 64) ex_history2 = Some s'.
+Proof. exact ex_history2_clean. Qed.
